@@ -18,7 +18,7 @@ func TestMain(m *testing.M) { lib.Main(m) }
 
 var spec = lib.Spec{
 	ID: "C04",
-	Rule: "generated dependency graphs (4-12 targets in 1-3 packages; chains, diamonds, fan-in, filegroups between genrules, optionally every genrule defined through a subincluded wrapper so targets are discovered while parsing) " +
+	Rule: "generated dependency graphs (4-12 targets in 1-3 packages; chains, diamonds, fan-in, filegroups between genrules, a require/provide pair that redirects a dependency, optionally every genrule defined through a subincluded wrapper so targets are discovered while parsing) " +
 		"whose commands sleep a drawn 0-30 ms; each graph is built from an empty plz-out with 2 drawn worker counts from {1,2,4,16} and a drawn set of requested roots that share dependencies. " +
 		"Invariant over the action log + plz's trace: every label has <= 1 start and <= 1 end event; for every (transitive) dependency edge t->d between commands, end(d) precedes start(t); plz exits 0; " +
 		"every activated target has exactly one terminal Build event with a success description; no Go panic in stderr. " +
@@ -38,6 +38,69 @@ type Case struct {
 func gen(t *rapid.T) Case {
 	r := lib.GenRepo(t, lib.RepoGenOpts{MinTargets: 4, MaxTargets: 12, MaxSleepMs: 30, Kinds: []string{"cat", "cat", "count", "multi", "dirn"}})
 	r.Subinclude = rapid.IntRange(0, 2).Draw(t, "subinclude") == 0
+	// require/provide: X requires "r", its dependency Y provides {"r": Z} => X really depends on Z
+	if rapid.Bool().Draw(t, "provide") {
+		var xs []*lib.RTarget
+		for _, x := range r.Targets {
+			if x.Kind == "genrule" {
+				for _, d := range x.Deps() {
+					if y := r.Target(d); y != nil && y.Kind == "genrule" {
+						xs = append(xs, x)
+						break
+					}
+				}
+			}
+		}
+		if len(xs) > 0 {
+			x := xs[rapid.IntRange(0, len(xs)-1).Draw(t, "x")]
+			var y *lib.RTarget
+			for _, d := range x.Deps() {
+				if cand := r.Target(d); cand != nil && cand.Kind == "genrule" {
+					y = cand
+				}
+			}
+			var zs []string
+			for _, z := range r.Targets {
+				if z == x {
+					break
+				}
+				if z != y {
+					zs = append(zs, z.Label())
+				}
+			}
+			if len(zs) > 0 {
+				y.Provides = map[string]string{"r": rapid.SampledFrom(zs).Draw(t, "z")}
+				x.Requires = []string{"r"}
+			}
+		}
+	}
+	// explicit shapes the random edges rarely produce: a wide fan-in target, and a diamond top over two
+	// targets that share a dependency
+	var gens []string
+	for _, x := range r.Targets {
+		if x.Kind == "genrule" {
+			gens = append(gens, x.Label())
+		}
+	}
+	var forced []string
+	if len(gens) >= 3 && rapid.IntRange(0, 3).Draw(t, "fanin") > 0 {
+		k := rapid.IntRange(3, min(6, len(gens))).Draw(t, "fanin_width")
+		fi := &lib.RTarget{Pkg: r.Pkgs[0], Name: "fanin", Kind: "genrule", Cmd: "cat", Outs: []string{"fanin.out"}, SleepMs: rapid.IntRange(0, 30).Draw(t, "fsleep")}
+		for _, l := range rapid.Permutation(gens).Draw(t, "fanin_deps")[:k] {
+			fi.Srcs = append(fi.Srcs, lib.RSrc{Label: l})
+		}
+		r.Targets = append(r.Targets, fi)
+		forced = append(forced, fi.Label())
+	}
+	if len(gens) >= 1 && rapid.IntRange(0, 3).Draw(t, "diamond") > 0 {
+		base := rapid.SampledFrom(gens).Draw(t, "dbase")
+		p := rapid.SampledFrom(r.Pkgs).Draw(t, "dpkg")
+		l := &lib.RTarget{Pkg: p, Name: "dl", Kind: "genrule", Cmd: "cat", Outs: []string{"dl.out"}, Srcs: []lib.RSrc{{Label: base}}, SleepMs: rapid.IntRange(0, 30).Draw(t, "lsleep")}
+		rr := &lib.RTarget{Pkg: p, Name: "dr", Kind: "genrule", Cmd: "count", Outs: []string{"dr.out"}, Srcs: []lib.RSrc{{Label: base}}, SleepMs: rapid.IntRange(0, 30).Draw(t, "rsleep")}
+		top := &lib.RTarget{Pkg: r.Pkgs[0], Name: "dtop", Kind: "genrule", Cmd: "cat", Outs: []string{"dtop.out"}, Srcs: []lib.RSrc{{Label: l.Label()}, {Label: rr.Label()}}}
+		r.Targets = append(r.Targets, l, rr, top)
+		forced = append(forced, top.Label())
+	}
 	c := Case{R: r}
 	// several roots
 	ls := r.Labels()
@@ -45,6 +108,18 @@ func gen(t *rapid.T) Case {
 	c.Req = rapid.Permutation(ls).Draw(t, "roots")[:n]
 	if rapid.IntRange(0, 3).Draw(t, "all") == 0 {
 		c.Req = ls
+	} else {
+		for _, f := range forced {
+			dup := false
+			for _, q := range c.Req {
+				if q == f {
+					dup = true
+				}
+			}
+			if !dup && rapid.IntRange(0, 3).Draw(t, "want_shape") > 0 {
+				c.Req = append(c.Req, f)
+			}
+		}
 	}
 	ws := rapid.Permutation([]int{1, 2, 4, 16}).Draw(t, "workers")
 	c.Workers = ws[:2]
@@ -65,14 +140,14 @@ func run(c Case, o *lib.Obs) error {
 	maxFanIn := 0
 	diamond := false
 	for _, t := range st.Targets {
-		if len(t.Deps()) > maxFanIn && closure[t.Label()] {
-			maxFanIn = len(t.Deps())
+		if len(st.ResolvedDeps(t)) > maxFanIn && closure[t.Label()] {
+			maxFanIn = len(st.ResolvedDeps(t))
 		}
 		all := st.TransitiveDeps([]string{t.Label()})
 		delete(all, t.Label())
 		cmdDeps[t.Label()] = all
 		// diamond: two direct deps sharing a transitive dep
-		ds := t.Deps()
+		ds := st.ResolvedDeps(t)
 		for i := range ds {
 			for j := i + 1; j < len(ds); j++ {
 				a, b := st.TransitiveDeps([]string{ds[i]}), st.TransitiveDeps([]string{ds[j]})
@@ -166,6 +241,12 @@ func run(c Case, o *lib.Obs) error {
 	o.LabelIf(diamond, "diamond")
 	o.LabelIf(maxFanIn >= 3, "fan_in_3plus")
 	o.LabelIf(st.Subinclude, "subincluded_rules")
+	for _, t := range st.Targets {
+		if len(t.Requires) > 0 && closure[t.Label()] {
+			o.Label("require_provide_in_closure")
+			break
+		}
+	}
 	maxW := 0
 	for _, w := range c.Workers {
 		if w > maxW {
@@ -175,7 +256,7 @@ func run(c Case, o *lib.Obs) error {
 	o.NonTrivial((diamond || maxFanIn >= 3) && maxW >= 4)
 	var desc []string
 	for _, t := range st.Targets {
-		desc = append(desc, fmt.Sprintf("%s(%s,%dms)<-%v", t.Label(), t.Kind, t.SleepMs, t.Deps()))
+		desc = append(desc, fmt.Sprintf("%s(%s,%dms)<-%v", t.Label(), t.Kind, t.SleepMs, st.ResolvedDeps(t)))
 	}
 	o.Sample(map[string]any{"targets": desc, "request": c.Req, "workers": c.Workers, "subinclude": st.Subinclude})
 	return nil
@@ -196,5 +277,5 @@ func (s *orderSet) add(k string) {
 var orderings orderSet
 
 func TestC04(t *testing.T) {
-	lib.Check(t, spec, lib.Scale(32, 2000), gen, run)
+	lib.Check(t, spec, lib.Scale(16, 2000), gen, run)
 }
